@@ -38,3 +38,69 @@ Proof.
     rewrite nonl_app, nonl_cons, (valid_hex_nonl h Hh). reflexivity.
   - uniq_scan.
 Qed.
+
+Lemma mm_tag_current r t : repo_ok r = true -> tag_ok t = true -> exec ast_match_manifests (build (KTagCurrent r t)) = Some [s_tags].
+Proof.
+  intros Hr Ht. by_unique.
+  - replace (build (KTagCurrent r t)) with (repo_dir r ++ sls s_manifests ++ s_tags ++ ([SL] ++ (t ++ SL :: s_current) ++ sl s_link) ++ []).
+    2:{ cbn [build]. unfold sls, sl. repeat (progress (rewrite <- ?app_assoc; cbn [app])). rewrite ?app_nil_r. reflexivity. }
+    destruct (tag_ok_facts t Ht) as (? & ? & Hnl & ?).
+    apply D_mm; auto using repo_dir_nonnil, repo_dir_nonl. apply D_alt_l, D_lit. apply D_mm_opt; [destruct t; discriminate|].
+    rewrite nonl_app, Hnl. reflexivity.
+  - uniq_scan.
+Qed.
+Lemma mm_tag_index r t h : repo_ok r = true -> tag_ok t = true -> valid_hex h = true ->
+  exec ast_match_manifests (build (KTagIndex r t h)) = Some [s_tags].
+Proof.
+  intros Hr Ht Hh. by_unique.
+  - replace (build (KTagIndex r t h)) with (repo_dir r ++ sls s_manifests ++ s_tags ++ ([SL] ++ (t ++ sls s_index ++ s_sha256 ++ SL :: h) ++ sl s_link) ++ []).
+    2:{ cbn [build]. unfold sls, sl. repeat (progress (rewrite <- ?app_assoc; cbn [app])). rewrite ?app_nil_r. reflexivity. }
+    destruct (tag_ok_facts t Ht) as (? & ? & Hnl & ?).
+    apply D_mm; auto using repo_dir_nonnil, repo_dir_nonl. apply D_alt_l, D_lit. apply D_mm_opt; [destruct t; discriminate|].
+    unfold sls. rewrite !nonl_app, Hnl, !nonl_cons, !nonl_app, !nonl_cons, (valid_hex_nonl h Hh). reflexivity.
+  - uniq_scan.
+Qed.
+
+(* ---- GetManifestTag ---- *)
+Lemma tag_current r t : repo_ok r = true -> tag_ok t = true ->
+  exec ast_get_manifest_tag (build (KTagCurrent r t)) = Some [t; s_current].
+Proof.
+  intros Hr Ht. by_unique.
+  - replace (build (KTagCurrent r t)) with (repo_dir r ++ (sls s_manifests ++ s_tags ++ [SL]) ++ t ++ [SL] ++ s_current ++ sl s_link ++ []).
+    2:{ cbn [build]. unfold sls, sl. repeat (progress (rewrite <- ?app_assoc; cbn [app])). rewrite ?app_nil_r. reflexivity. }
+    destruct (tag_ok_facts t Ht) as (? & ? & Hnl & ?).
+    unf_ast_goal. dI'; auto using repo_dir_nonnil, repo_dir_nonl. apply D_alt_l, D_lit. reflexivity.
+  - uniq.
+Qed.
+Lemma tag_index r t h : repo_ok r = true -> tag_ok t = true -> valid_hex h = true ->
+  exec ast_get_manifest_tag (build (KTagIndex r t h)) = Some [t; s_index ++ sls s_sha256 ++ h].
+Proof.
+  intros Hr Ht Hh. by_unique.
+  - replace (build (KTagIndex r t h)) with (repo_dir r ++ (sls s_manifests ++ s_tags ++ [SL]) ++ t ++ [SL] ++ ((s_index ++ sls s_sha256) ++ h) ++ sl s_link ++ []).
+    2:{ cbn [build]. unfold sls, sl. repeat (progress (rewrite <- ?app_assoc; cbn [app])). rewrite ?app_nil_r. reflexivity. }
+    destruct (tag_ok_facts t Ht) as (? & ? & Hnl & ?).
+    unf_ast_goal. dI'; auto using repo_dir_nonnil, repo_dir_nonl. apply D_alt_r. dI'; auto using valid_hex_nonnil, valid_hex_cls.
+    cbn [app]. unfold sls. rewrite <- !app_assoc. reflexivity.
+  - uniq.
+Qed.
+
+(* ---- GetManifestDigest ---- *)
+Lemma mdigest_revision r h : repo_ok r = true -> valid_hex h = true ->
+  exec ast_get_manifest_digest (build (KRevision r h)) = Some [h].
+Proof.
+  intros Hr Hh. by_unique.
+  - replace (build (KRevision r h)) with (repo_dir r ++ sls s_manifests ++ s_revisions ++ sls s_sha256 ++ h ++ sl s_link ++ []).
+    2:{ cbn [build]. rewrite ?app_nil_r. reflexivity. }
+    unf_ast_goal. dI'; auto using repo_dir_nonnil, repo_dir_nonl, valid_hex_nonnil, valid_hex_cls. apply D_alt_l, D_lit. reflexivity.
+  - uniq.
+Qed.
+Lemma mdigest_tag_index r t h : repo_ok r = true -> tag_ok t = true -> valid_hex h = true ->
+  exec ast_get_manifest_digest (build (KTagIndex r t h)) = Some [h].
+Proof.
+  intros Hr Ht Hh. by_unique.
+  - replace (build (KTagIndex r t h)) with (repo_dir r ++ sls s_manifests ++ ((s_tags ++ [SL]) ++ t ++ sl s_index) ++ sls s_sha256 ++ h ++ sl s_link ++ []).
+    2:{ cbn [build]. unfold sls, sl. repeat (progress (rewrite <- ?app_assoc; cbn [app])). rewrite ?app_nil_r. reflexivity. }
+    destruct (tag_ok_facts t Ht) as (? & ? & Hnl & ?).
+    unf_ast_goal. dI'; auto using repo_dir_nonnil, repo_dir_nonl, valid_hex_nonnil, valid_hex_cls. apply D_alt_r. dI'. reflexivity.
+  - uniq.
+Qed.
